@@ -176,7 +176,7 @@ def verify_function(index, theory, contract, use_contracts=(), contracts=None, l
         report.add(f"{q}#cover.{case_name}", "unsat" if st in ("sat", "unknown") else "sat", secs, be,
                    detail=None if st != "unsat" else "precondition unsatisfiable (vacuous contract)")
         try:
-            outcomes, obligations = ex.explore(lambda e: e.call_function(finfo, list(args)), pre)
+            outcomes, obligations = ex.explore(lambda e: e.call_function(finfo, list(args), inline=True), pre)
         except OutsideSubset as e:
             report.add(f"{q}#subset.{case_name}", "unknown", 0.0, "engine", detail=f"outside subset: {e}")
             continue
